@@ -12,7 +12,10 @@
 (*   extensions.                                                           *)
 (* Patterns are matched against the path itself (not its parents), rooted  *)
 (* at the origin; the last matching pattern of a list decides and a        *)
-(* negated one un-matches.                                                 *)
+(* negated one un-matches.  A path outside the origin ("OUT" ...) is       *)
+(* matched as it stands: patterns rooted at the origin cannot match it,    *)
+(* floating ones (a bare name, *.ext, dir/, a leading double star) still do, and     *)
+(* the ignore file of the origin does not apply to it.                     *)
 (***************************************************************************)
 EXTENDS Integers, Sequences, FiniteSets, TLC, Json, Randomization, Glob
 
@@ -21,8 +24,10 @@ CONSTANTS Family, Sample
 \* probes: path (relative to the origin), file type as the event carries it
 Pr(path, ft) == [path |-> path, ft |-> ft]
 PathPool == { <<"foo">>, <<"x.o">>, <<"test">>, <<"test", "foo">>, <<"test", "x.o">>, <<"test", "sub">>,
-              <<"test", "sub", "x.o">>, <<"tests", "foo">>, <<"tests", "sub">> }
-IsDirPath(p) == p \in {<<"test">>, <<"test", "sub">>, <<"tests", "sub">>}
+              <<"test", "sub", "x.o">>, <<"tests", "foo">>, <<"tests", "sub">>,
+              <<"OUT", "foo">>, <<"OUT", "x.o">>, <<"OUT", "sub">>, <<"OUT", "test", "foo">> }
+IsDirPath(p) == p \in {<<"test">>, <<"test", "sub">>, <<"tests", "sub">>, <<"OUT", "sub">>}
+IsOut(pr) == Head(pr.path) = "OUT"
 Probes == {Pr(p, ft) : p \in PathPool, ft \in {"known", "unknown"}}
 IsDir(pr) == pr.ft = "known" /\ IsDirPath(pr.path)      \* an unknown type is not a directory
 
@@ -30,11 +35,22 @@ HasExtO(pr) == pr.path[Len(pr.path)] = "x.o"
 
 Cfg(f, i, e, w, ig) == [filters |-> f, ignores |-> i, exts |-> e, whitelist |-> w, ignorefile |-> ig]
 
-Matched(pats, pr) == pats # <<>> /\ LastMatch(pats, Len(pats), pr.path, IsDir(pr)) = "ignore"
+\* the patterns that are not tied to the origin
+Floating(pats) ==
+    LET keep == {i \in DOMAIN pats : ~pats[i].anchored \/ pats[i].segs[1].k = "dstar"}
+        RECURSIVE Sel(_)
+        Sel(i) == IF i > Len(pats) THEN <<>> ELSE (IF i \in keep THEN <<pats[i]>> ELSE <<>>) \o Sel(i + 1)
+    IN  Sel(1)
 
-\* the ignore file at the origin (one list of lines): path or any parent, as in IgnoreScope
+Matched(pats, pr) ==
+    IF IsOut(pr)
+    THEN LET ps == Floating(pats) IN ps # <<>> /\ LastMatch(ps, Len(ps), Tail(pr.path), IsDir(pr)) = "ignore"
+    ELSE pats # <<>> /\ LastMatch(pats, Len(pats), pr.path, IsDir(pr)) = "ignore"
+
+\* the ignore file at the origin (one list of lines): path or any parent, as in IgnoreScope; it says
+\* nothing about paths outside the origin
 FileRejects(lines, pr) ==
-    lines # <<>> /\ PathOrParents(lines, pr.path, Len(pr.path), IsDir(pr)) = "ignore"
+    ~IsOut(pr) /\ lines # <<>> /\ PathOrParents(lines, pr.path, Len(pr.path), IsDir(pr)) = "ignore"
 
 FiltersConfigured(cfg) == \E i \in DOMAIN cfg.filters : ~cfg.filters[i].neg
 
@@ -42,12 +58,8 @@ FiltersConfigured(cfg) == \E i \in DOMAIN cfg.filters : ~cfg.filters[i].neg
 \* patterns are tried a second time against `<origin>//<relative path>`.  With the doubled
 \* separator an anchored pattern that does not start with `**` cannot match, so on the second try
 \* those patterns - in particular anchored negations - are out of play.
-Compat1x(pats) ==
-    LET keep == {i \in DOMAIN pats : ~pats[i].anchored \/ pats[i].segs[1].k = "dstar"}
-        RECURSIVE Sel(_)
-        Sel(i) == IF i > Len(pats) THEN <<>> ELSE (IF i \in keep THEN <<pats[i]>> ELSE <<>>) \o Sel(i + 1)
-    IN  Sel(1)
-FilterMatched(cfg, pr) == Matched(cfg.filters, pr) \/ Matched(Compat1x(cfg.filters), pr)
+Compat1x(pats) == Floating(pats)
+FilterMatched(cfg, pr) == Matched(cfg.filters, pr) \/ (~IsOut(pr) /\ Matched(Compat1x(cfg.filters), pr))
 
 PathPasses(cfg, pr) ==
     /\ ~Matched(cfg.ignores, pr)
